@@ -25,7 +25,7 @@ fn main() {
         d.probes.push(rsactor::ActorRef::downgrade(&r));
         d.joins.push(j);
         d.join_res.push(None);
-        d.sh.st.lock().unwrap().slots.insert(idx, Slot::Strong(r));
+        d.sh.st.lock().unwrap().slots.insert(idx, Slot::Strong(SRef::Typed(r)));
         d.barrier().await;
         d.act(&Action::Auto { a: 0, v: false }).await;
         let total = 200u64;
